@@ -224,6 +224,8 @@ pub(crate) async fn handle_run<'a>(
     }
     let mut tracking_run = get_next_tracking_run(cfg, &tracking_table)?;
     let run_path = setup_run_path(cfg, tracking_run.id, work_path)?;
+    #[cfg(pnordahl_monorail_verif)]
+    crate::verif::point("run.slot.ready", &format!("{}", tracking_run.id));
     let commands = get_all_commands(cfg, &input.commands, &input.sequences)?;
     let mut argmap = ArgMap::new();
     let mut checkpointed = false;
@@ -311,11 +313,17 @@ pub(crate) async fn handle_run<'a>(
     )
     .await?;
 
+    #[cfg(pnordahl_monorail_verif)]
+    crate::verif::point("run.result.before", "");
     // Store the run output record
     store_run_output(&run_output, &run_path)?;
+    #[cfg(pnordahl_monorail_verif)]
+    crate::verif::point("run.pointer.before", "");
 
     // Update the run counter
     tracking_run.save()?;
+    #[cfg(pnordahl_monorail_verif)]
+    crate::verif::point("run.pointer.after", "");
     Ok(run_output)
 }
 
@@ -679,6 +687,8 @@ async fn process_task_results(
 ) -> Result<bool, MonorailError> {
     let mut failed = false;
     while let Some(join_res) = js.join_next().await {
+        #[cfg(pnordahl_monorail_verif)]
+        crate::verif::point("run.task.result", command);
         match join_res {
             Ok(task_res) => {
                 match task_res {
@@ -821,6 +831,11 @@ async fn schedule_task(
                 "Task"
             );
             let task_id = task.id;
+            #[cfg(pnordahl_monorail_verif)]
+            crate::verif::point(
+                "run.spawn",
+                &format!("{}\u{0}{}", *task.command, &plan_target.path),
+            );
             let child = spawn_task(
                 &plan_target.command_work_path,
                 command_path,
@@ -955,6 +970,11 @@ async fn process_plan(
                     );
                 }
             }
+            #[cfg(pnordahl_monorail_verif)]
+            crate::verif::point(
+                "run.group.spawned",
+                &format!("{}\u{0}{}", command, plan_targets.len()),
+            );
             if process_task_results(
                 js,
                 plan_targets,
@@ -971,6 +991,10 @@ async fn process_plan(
             crr.target_groups.push(result_target_group);
 
             for client in compressor_clients {
+                #[cfg(pnordahl_monorail_verif)]
+                crate::verif::point_until("run.shutdown.send", command, || {
+                    client.0.req_tx.is_closed() && client.1.req_tx.is_closed()
+                });
                 client.0.shutdown().await?;
                 client.1.shutdown().await?;
             }
@@ -978,6 +1002,8 @@ async fn process_plan(
             // because it doesn't impl Error; however, the internals of this handle do, so they
             // will get propagated.
             compressor_handle.join().unwrap()?;
+            #[cfg(pnordahl_monorail_verif)]
+            crate::verif::point("run.group.done", command);
         }
         results.push(crr);
     }
